@@ -97,18 +97,19 @@ type Run struct {
 	initDone map[*ssa.Package]bool
 
 	// scheduler
-	threads  []*thread
-	cur      *thread
-	killCh   chan struct{}
-	doneCh   chan struct{}
-	outcome  *abortPath
-	preempt  int
-	events   []*envEvent
-	quiesce  []value // callbacks
-	schedLog []string
-	nextTid  int
-	clock    *Term // last time.Now value (monotone)
-	nowCount int
+	threads    []*thread
+	cur        *thread
+	killCh     chan struct{}
+	doneCh     chan struct{}
+	outcome    *abortPath
+	preempt    int
+	events     []*envEvent
+	quiesce    []value // callbacks
+	schedLog   []string
+	nextTid    int
+	schedEpoch int
+	clock      *Term // last time.Now value (monotone)
+	nowCount   int
 
 	fs            *fsModel
 	race          *raceState
